@@ -138,7 +138,7 @@ func newConn(h *Handler, s *xmpp.Session, iq openIQ, recv bool, maxBufSize int) 
 
 	return &Conn{
 		readBuf:        bytes.NewBuffer(make([]byte, 0, blockSize)),
-		readReady:      make(chan struct{}),
+		readReady:      make(chan struct{}, 1),
 		s:              s,
 		writeBuf:       bufio.NewWriterSize(b64Writer, int(blockSize)),
 		closeFlushFunc: b64Writer.Close,
@@ -174,10 +174,18 @@ func (c *Conn) Read(b []byte) (n int, err error) {
 	// In this case wait for a signal that there is more data to read.
 	// When the connection is closed this same signal is sent and our final read
 	// from the empty buffer will result in 0, io.EOF as expected.
-	if c.readBuf.Len() == 0 {
+	// The signal is remembered by the channel's buffer if it is sent between us
+	// releasing the lock and starting to wait.
+	// A remembered signal may also be stale (its data has been read already) or
+	// announce an empty packet, so check the buffer again after every wake-up and
+	// only give up waiting when the channel has been closed.
+	for c.readBuf.Len() == 0 {
 		c.readLock.Unlock()
-		<-c.readReady
+		_, open := <-c.readReady
 		c.readLock.Lock()
+		if !open {
+			break
+		}
 	}
 
 	return c.readBuf.Read(b)
